@@ -44,6 +44,24 @@ FIRST = {
  'C17d': ('missed', 'no name whose first label ends with a length byte plus the bytes of the parent label; wire-suffix family for every label length added'),
  'C18d': ('missed', 'parsed records used the canonical RDATA of each type in class IN/CH; every TYPE code x 7 CLASS fields x ~20 RDATA bodies now parsed and the reported type/class compared with the wire'),
  'C19d': ('missed', 'at most 3 attribute strings; lists of 5..300 strings with duplicate and bare keys added (in memory, over the wire, long_attributes)'),
+ # round 5 (first encounter measured against the checks of commit 88baa5d, seeded/_results/first_encounter_round5.txt)
+ 'C01e': ('missed', 'no message combining a long label-free pointer chain with thousands of names pointing at its head; chain fan-in family added under the 2 s limit'),
+ 'C02e': ('missed', 'packets were only assembled by successful calls; call sequences with rejected add_string / set_param calls and repeated setters added'),
+ 'C04e': ('missed', 'no SVCB whose key was set twice; svcb-replace family (every setter x every pair of value sizes) and failed-mutator family added'),
+ 'C06e': ('missed', 'name layouts covered NS/MX/SOA/SRV/NSEC only; every valid compression layout of every name-bearing type (incl. IPSECKEY gateways) added, every field after an embedded name compared'),
+ 'C08e': ('missed', 'headers were parsed alone or with consistent content; every flag word x count tuples followed by entries cut after the question section / one byte short / after the first record added'),
+ 'C09e': ('missed', 'no parsed-then-edited packet with EDNS data; parse-edit-serialise over every ordered pair of named response codes added'),
+ 'C10e': ('missed', 'SVCB was built through set_param once per key; every sequence of typed setters incl. repeats added and compared with the RFC 9460 encoding'),
+ 'C11e': ('harness did not build (exit 2, no verdict)', 'bind.rs matched a public enum exhaustively; mappings now fall back to the number the library writes for unknown variants, and every 12-bit response code (extended byte x header nibble) is swept'),
+ 'C12e': ('missed', 'name alphabets had no labels with a conventional meaning; dictionary names (arpa, in-addr, ip6, local, _tcp, ... up to 3 labels) added to C01/C11/C12/C17'),
+ 'C13e': ('missed', 'queries never listed known answers; known-answer queries added in every BFS state'),
+ 'C14e': ('missed', 'no store whose records refer to each other in a cycle, and a stack overflow would have killed the checker; reference-cycle world run in child processes and an abort handler added'),
+ 'C15e': ('missed', 'events were plain announcements; cache-flush announcements and goodbyes before / after plain announcements added'),
+ 'C16e': ('missed', 'each equal value was built once; 48 independently built copies per shape incl. attribute keys that collide when case is folded added'),
+ 'C17e': ('missed', 'label lengths were swept with one character class; every length x (first, interior, last) class added'),
+ 'C18e': ('missed', 'Unknown(x) records were only matched against Unknown(x) questions; questions for other unnamed codes added'),
+ 'C19e': ('missed', 'string content came from {a ; = and two non-ASCII letters}; content sweeps over every byte and quote/backslash shapes added'),
+ 'C20e': ('missed by C20 (C16 had it)', 'C20 drove add_cached_resource directly; the real network path (parse + add_response_to_resources, sync and async) added'),
  'C20d': ('missed', 'at most a handful of records per name; stores of 1..500 records in one bucket with the authoritative record first / middle / last added'),
 }
 def load_jsonl(pattern):
